@@ -50,6 +50,13 @@ class Contract:
     verify: bool = True
     max_paths: int = 4000
     kind: str = "function"  # or "lemma": body-less obligation over spec functions
+    # parameters whose default is a module-private shared object (e.g. cell_len's `_cache`): when a call
+    # omits them, a fresh object of the declared sort is used and the listed global-invariant clauses are
+    # assumed for it (they hold initially and are preserved by the only function that can reach the object)
+    shared_defaults: Dict[str, List[str]] = field(default_factory=dict)
+    native_gen: Dict[str, Any] = field(default_factory=dict)  # param -> callable(rng) -> list of real values
+    native: bool = True  # evaluate the clauses natively on the real function (bounded cross-check)
+    native_budget: int = 3000
 
     @property
     def key(self) -> Tuple[str, str]:
@@ -100,7 +107,11 @@ class Registry:
         self.specfns: Dict[str, SpecFn] = {}
         self.records: List[Any] = []  # (name, fields, opts)
         self.data: Dict[str, DataObligation] = {}
-        self.axioms: List[Tuple[str, str]] = []  # (name, reason) — listed in evidence as assumptions
+        self.axioms: List[Tuple[str, str]] = []
+        self.const_overrides: Dict[Tuple[str, str], Any] = {}
+        self.natives: Dict[str, Any] = {}  # native implementations of ufuns / overrides of spec macros
+        self.native_factories: Dict[str, Any] = {}
+        self.ufuns: Dict[str, str] = {}  # uninterpreted spec functions: name -> result sort text  # (name, reason) — listed in evidence as assumptions
 
     def contract(self, module, func, **kw) -> Contract:
         c = Contract(module=module, func=func, **kw)
@@ -114,6 +125,9 @@ class Registry:
 
     def specfn(self, name, params, body, doc=""):
         self.specfns[name] = SpecFn(name, list(params), body, doc)
+
+    def ufun(self, name, result="bool"):
+        self.ufuns[name] = result
 
     def record(self, name, fields, **opts):
         self.records.append((name, fields, opts))
